@@ -36,7 +36,7 @@ class Canonical:
         return "TRUE" if b else "FALSE"
 
     def quote(self, s):
-        return "'" if '"' in s else '"'
+        return "'" if strings.unescaped(s, '"') else '"'
 
     def bare(self, s):
         return False
@@ -72,11 +72,11 @@ class Surface:
         return self.ch.choice(["TRUE", "true", "True", "tRuE"] if b else ["FALSE", "false", "False", "fAlSe"])
 
     def quote(self, s):
-        if '"' in s:
+        if strings.unescaped(s, '"'):
             return "'"
-        if "'" in s:
+        if strings.unescaped(s, "'"):
             return '"'
-        q = self.ch.choice(['"', "'"])
+        q = self.ch.choice(['"', "'"])   # (escaped occurrences of a quote character may stand inside either quote)
         if q == "'":
             self._c("quote:single")
         return q
